@@ -1,14 +1,18 @@
 """C02 — STAR files read back to the same blocks, columns, rows and values (DESIGN.md section 4, C02).
 
-Three case streams (field `kind`):
-  write      list of tables -> real Starfile.write -> file text (independent tokenizer + byte compare with the Lean
-             `printStar`) -> real Starfile.read -> compared with the tables (the statement, evaluated directly) and
-             with the Lean `readStar` of the same text
-  read       grammar-generated STAR text (comments / blank lines in the permitted places, tabs, runs of blanks,
-             trailing blanks, CRLF/LF, final newline or not) -> real Starfile.read vs. the generating structure vs. the
-             harness's own line tokenizer vs. the Lean `readStar` (three-way, exact)
-  malformed  a `read` text damaged in one place (ragged row, comment on a row, missing loop_, ...): accept/reject and
-             the error kind compared with the Lean parser only (correspondence, never a spec finding)
+Five case streams (field `kind`):
+  write      list of tables -> real Starfile.write (keywords with a default left out in ~30 %) -> file text (independent tokenizer +
+             byte compare with the Lean `printStar`) -> real Starfile.read -> compared with the tables (the statement, evaluated
+             directly, incl. integer / float / text typing of what comes back) and with the Lean `readStar` of the same text
+  rewrite    cross-call state: two or three write/read rounds in one process on the SAME path (same shape and byte length with other
+             values / unrelated tables / the same caller-owned list object again); every read judged against the tables of its write
+  remove     Starfile.remove_lines on a written file (the comments and specifiers `read` returned are fed back into `write`)
+  read       grammar-generated STAR text (comments / blank lines in the permitted places or absent, tabs, runs of blanks incl. the
+             whole str.isspace set, non-ASCII word characters, trailing blanks, CRLF/LF, final newline or not) -> real Starfile.read
+             vs. the generating structure vs. the harness's own line tokenizer vs. the Lean `readStar` (three-way, exact)
+  malformed  a `read` text damaged in one place (ragged row, comment on a row, missing loop_, ...): if the independent tokenizer
+             still finds a STAR text of the statement it is judged like a `read` case; otherwise accept/reject and the error kind
+             are compared with the Lean parser only (correspondence, never a spec finding)
 """
 import os, re, ast, math, tempfile, copy
 import core
@@ -22,13 +26,23 @@ HUGE = 1.7976931348623157e302  # |v|*1e6 overflows binary64 above this
 
 RULE = ("write stream (with, in a third of the cases, a `comments` argument: per block None or 0..3 comment lines incl. empty, padded, '#', 'loop_', "
         "'data_x', '_rlnFake #1'; in half of all write/read cases also Starfile.read(data_id=i) with i in -n-1..n and in 40% "
-        "get_frame_and_comments/get_specifier_id with a present, duplicated or absent block name, on the same file): 1..4 tables (1..200 rows, an empty table only last; 1..30 columns) of int64 / float64 / text columns, "
+        "get_frame_and_comments/get_specifier_id with a present, duplicated or absent block name, on the same file; each of the keywords "
+        "number_columns / specifiers / comments LEFT OUT of the call in ~30% so that the signature defaults True / ['data']*n / None run): "
+        "1..4 tables (1..200 rows, an empty table only last; 1..30 columns) of int64 / float64 / text columns, "
         "names from data_, data_particles, data_optics, data_general, data_stopgap_*, number_columns on/off; float cells from "
-        "integers-as-floats, 1..9 decimals, values that change under round(6), half-way cases at the 7th decimal, tiny, 1e15..1e22, "
-        "+-0; text cells printable ASCII without whitespace/#, not starting with _, never empty, at least one cell per text column "
+        "integers-as-floats, 1..9 decimals, values that change under round(6), half-way cases at the 7th decimal, tiny, 1e15..1e22, random mantissas up to 1e40, "
+        "+-0; text cells printable ASCII or non-ASCII word characters (U+200B, U+180E, U+FEFF, letters, ...) without str.isspace characters/#, not starting with _, never empty, at least one cell per text column "
         "that is not a number (letters), some cells number-like (1e5, .5, nan, inf, 1_0) beside it, some longer than the 10-wide pad. "
-        "read stream: grammar-generated texts (see module docstring). malformed stream: one damage per text. "
-        "non-trivial = write case with >=2 blocks, or with >=1 text column and >=1 float cell changed by round(6); read case "
+        "rewrite stream (G2): 2..3 write/read rounds on one path in one process: same shape + all cells <= 10 characters (identical byte length, same second) with other values (60%), "
+        "unrelated tables (20%), the same caller-owned list object written again with the other header style (20%); the caller's tables, list, specifiers and comments are compared before/after every call. "
+        "remove stream: Starfile.remove_lines(path, positions, output_file or not, data_specifier None/present/absent, number_columns given or left out) on a written file of exactly-parsed cells; positions "
+        "non-negative, distinct or repeated, 6% beyond the last row; a block other than the last keeps a row. "
+        "read stream: grammar-generated texts (see module docstring); 2% of the later blocks directly follow the previous block's rows and 40% of the texts whose last block is empty and unfollowed end "
+        "without final newline -- both layouts are INSIDE the statement (blank/comment lines `may` separate blocks; `with or without final newline`) and the reader raises on them: open findings C02-K4 / C02-K3. "
+        "malformed stream: one damage per text; a damaged text the independent tokenizer still reads as a STAR text of the statement is judged as such (spec), any other is OUTSIDE the quantifier "
+        "(e.g. `1 2` / `3` under two labels: not `data blocks with one loop each` whose rows an independent tokenizer finds -- the reader drops the short row silently, theorem short_last_row_dropped; "
+        "counted in the histogram malformed.accepted-by-reader-though-malformed, never a finding). "
+        "non-trivial = write case with >=2 blocks, or with >=1 text column and >=1 float cell changed by round(6); rewrite case whose rounds differ (or reuse the list); remove case that removes a row; read case "
         "with >=1 comment line and >=1 token separator longer than one character; malformed case the model rejects. "
         "distinct = distinct case content (sha1 of the JSON)")
 ASSUMPTIONS = [
@@ -36,8 +50,10 @@ ASSUMPTIONS = [
     "the shortest round-trip digit string and decimal exponent of a rounded float64 cell are those of numpy's Dragon4 (format_float_scientific(unique=True)); their layout by Python's repr (fixed/exponent form, thresholds 1e16 and 1e-4, '.0', two-digit exponent, inf, nan) and str(int) are modelled in Lean (floatRepr, intStr) and the produced file is compared byte for byte",
     "DataFrame.round(6) = numpy.round(v, 6) per float cell (harness computes numpy.round itself; byte compare of the file on every case)",
     "float(repr(x)) = x and int(str(n)) = n (probed on every run); pandas.to_numeric turns a column into numbers iff every cell is a decimal literal [+-]?(d+[.d*]|.d+)([eE][+-]?d+)? or [+-]?(inf|infinity) in any letter case -- not nan (model `isNumTok`, proved equal to the grammar `NumTok` and to hold for every cell the writer prints for a number; probed on every run on the token pool incl. all spellings; integer tokens beyond 64 bits are not generated)",
-    "pandas.to_numeric(token) is within 2 ulp of the correctly rounded float(token) (1 ulp off observed, e.g. '3.3e+100' -> 3.2999999999999997e+100); the statement's `equal after rounding to 6 decimals` is judged as |read - written| <= 0.5e-6 + 2 ulp",
-    "str.isspace() on the characters of one line = model `isWs` (blank, tab, CR, VT, FF, U+001C..U+001F, U+0085, U+00A0); generated texts are ASCII",
+    "pandas.to_numeric(token) is within 2 ulp of the correctly rounded float(token) (1 ulp off observed, e.g. '3.3e+100' -> 3.2999999999999997e+100) and numpy.round(v, 6) = rint(v*1e6)/1e6 within 0.5e-6 + 1.5 ulp of v (both probed on 8000 values up to 1e60 on every run); the statement's `equal after rounding to 6 decimals` is judged as |file - written| <= 0.5e-6 + 1.5 ulp on the file text (float(token) is correctly rounded) and |read - written| <= 0.5e-6 + 3.5 ulp on the frames read back",
+    "pandas.to_numeric gives an integer dtype exactly for columns of [+-]?d+ tokens within 64 bits (model `isIntTok`; probed on every run)",
+    "str.isspace() = model `isWs` on ALL code points (theorem isWs_is_str_isspace; the driver lists the model's set and the harness compares it with str.isspace over range(0x110000) on every run); str.split() splits exactly there; files are UTF-8 (an encoding error of the environment is reported as harness-or-library-raised, not as a spec finding)",
+    "remove stream: a cell written by Starfile.write, read by pandas.to_numeric and written again prints the same characters (cells restricted to <= 15 significant digits; probed on every run)",
 ]
 TRUSTED = ["harness independent STAR line tokenizer (props/c02.py indep_parse)", "Python builtins float(), str(), repr(), numpy.round used to evaluate the statement"]
 
@@ -75,6 +91,87 @@ def _consts(node):
     return [n.value for n in ast.walk(node) if isinstance(n, ast.Constant) and isinstance(n.value, str)]
 
 
+
+class _Alpha(ast.NodeTransformer):
+    """rename the local variables of one function to v0, v1, ... in order of first binding (arguments first), drop the
+    docstring and the message arguments of `raise X(...)` / `warnings.warn(...)`: the dump then depends on the statements,
+    operators, constants, attribute / keyword names and called functions, not on how locals are called or errors worded"""
+
+    def __init__(self, fn):
+        self.map = {}
+        for a in fn.args.posonlyargs + fn.args.args + fn.args.kwonlyargs + ([fn.args.vararg] if fn.args.vararg else []) + ([fn.args.kwarg] if fn.args.kwarg else []):
+            self.map.setdefault(a.arg, f"v{len(self.map)}")
+        self._bind(fn)
+
+    def _bind(self, node):
+        for ch in ast.iter_child_nodes(node):
+            if isinstance(ch, ast.Name) and isinstance(ch.ctx, ast.Store):
+                self.map.setdefault(ch.id, f"v{len(self.map)}")
+            elif isinstance(ch, (ast.FunctionDef, ast.AsyncFunctionDef)):
+                self.map.setdefault(ch.name, f"v{len(self.map)}")
+                for a in ch.args.args:
+                    self.map.setdefault(a.arg, f"v{len(self.map)}")
+            elif isinstance(ch, ast.ExceptHandler) and ch.name:
+                self.map.setdefault(ch.name, f"v{len(self.map)}")
+            self._bind(ch)
+
+    def visit_Name(self, n):
+        return ast.copy_location(ast.Name(id=self.map.get(n.id, n.id), ctx=n.ctx), n)
+
+    def visit_arg(self, n):
+        return ast.copy_location(ast.arg(arg=self.map.get(n.arg, n.arg), annotation=None), n)
+
+    def visit_FunctionDef(self, n):
+        n = self.generic_visit(n)
+        n.name = self.map.get(n.name, n.name)
+        return n
+
+    def visit_Raise(self, n):
+        if isinstance(n.exc, ast.Call):
+            return ast.copy_location(ast.Raise(exc=ast.Call(func=n.exc.func, args=[], keywords=[]), cause=None), n)
+        return self.generic_visit(n)
+
+    def visit_Call(self, n):
+        if ast.unparse(n.func) in ("warnings.warn", "warn"):
+            return ast.copy_location(ast.Call(func=n.func, args=[], keywords=[]), n)
+        return self.generic_visit(n)
+
+
+def _dump(fn, skip=0):
+    """normalised dump of a whole function body (statement kinds + expressions), see `_Alpha`"""
+    fn = copy.deepcopy(fn)
+    sts = [st for st in fn.body if not (isinstance(st, ast.Expr) and isinstance(st.value, ast.Constant) and isinstance(st.value.value, str))]
+    fn.body = sts
+    al = _Alpha(fn)
+    fn = ast.fix_missing_locations(al.visit(fn))
+    return ";".join(re.sub(r"\s+", "", ast.unparse(st).replace("\n", ";")) for st in fn.body[skip:])
+
+
+def _canon(fn, names):
+    """the function with its locals renamed to the DOCUMENTED names (`names[k]` for the k-th local in order of first binding):
+    the anchors below match on these names, so a renaming of locals in the source does not matter"""
+    fn = copy.deepcopy(fn)
+    al = _Alpha(fn)
+    back = {f"v{k}": n for k, n in enumerate(names)}
+    al.map = {old: back.get(v, v) for old, v in al.map.items()}
+    keep_raise, keep_call = _Alpha.visit_Raise, _Alpha.visit_Call
+    class K(_Alpha):
+        def __init__(self): self.map = al.map
+        def visit_Raise(self, n): return self.generic_visit(n)
+        def visit_Call(self, n): return self.generic_visit(n)
+    return ast.fix_missing_locations(K().visit(fn))
+
+
+WRITE_LOCALS = ['frames', 'path', 'specifiers', 'comments', 'number_columns', 'float_precision', 'i', 'f', 'file', 'write_with_number', 'name', 'number',
+                'write_without_number', '_', 'format_value', 'value', 'frame', 'specifier', 'comment', 'stopgap', 'write_function', 'c', 'index', 'column', 'row']
+
+
+def _signature(fn):
+    names = [a.arg for a in fn.args.args]
+    nd = len(fn.args.defaults)
+    return [n if i < len(names) - nd else f"{n}={ast.unparse(fn.args.defaults[i - (len(names) - nd)])}" for i, n in enumerate(names)]
+
+
 def translate(src):
     rel = "cryocat/starfileio.py"
     A = core.AnchorMissing
@@ -89,40 +186,65 @@ def translate(src):
                     return n.args[0].value
         raise A("Token.tokenize: text.split(<one char>)")
 
-    def cmp_consts(pred):
+    def tok_roles():
+        """names of the loop variables of the character loop, whatever they are called:
+        `for <lineno>, <line> in enumerate(<lines>): ... for <index>, <char> in enumerate(<line>)`"""
+        for outer in ast.walk(tok_fn()):
+            if isinstance(outer, ast.For) and isinstance(outer.target, ast.Tuple) and len(outer.target.elts) == 2 and ast.unparse(outer.iter).startswith("enumerate("):
+                for inner in ast.walk(outer):
+                    if inner is not outer and isinstance(inner, ast.For) and isinstance(inner.target, ast.Tuple) and len(inner.target.elts) == 2 \
+                            and ast.unparse(inner.iter) == f"enumerate({ast.unparse(outer.target.elts[1])})":
+                        return dict(line=ast.unparse(outer.target.elts[1]), index=ast.unparse(inner.target.elts[0]), char=ast.unparse(inner.target.elts[1]))
+        raise A("Token.tokenize: for _, line in enumerate(lines): for index, char in enumerate(line)")
+
+    def cmp_consts(shape):
+        """comparisons `<left> ==/!= <string constant>` of the tokenizer whose left side has the given shape
+        ('char' = the character variable, 'first' = line[<name>], 'slice' = line[<name>:...]); names of locals do not matter"""
+        roles = tok_roles()
         out = []
         for n in ast.walk(tok_fn()):
-            if isinstance(n, ast.Compare) and len(n.comparators) == 1 and isinstance(n.comparators[0], ast.Constant) and isinstance(n.comparators[0].value, str) and pred(n):
-                out.append((ast.unparse(n.left).replace(" ", ""), type(n.ops[0]).__name__, n.comparators[0].value))
+            if not (isinstance(n, ast.Compare) and len(n.comparators) == 1 and isinstance(n.comparators[0], ast.Constant) and isinstance(n.comparators[0].value, str)):
+                continue
+            l = n.left
+            if shape == "char":
+                hit = isinstance(l, ast.Name) and l.id == roles["char"]
+            else:
+                hit = isinstance(l, ast.Subscript) and isinstance(l.value, ast.Name) and l.value.id == roles["line"] and \
+                    (isinstance(l.slice, ast.Slice) if shape == "slice" else isinstance(l.slice, ast.Name))
+            if hit:
+                form = "" if shape != "slice" else ("[a:b]" if l.slice.upper is not None else "[a:]")
+                out.append((form, type(n.ops[0]).__name__, n.comparators[0].value))
         return out
 
     def comment_char():
-        cs = cmp_consts(lambda n: ast.unparse(n.left) == "char")
+        # any number of `char == c` / `char != c` tests, all against the same single character (structure, not count)
+        cs = cmp_consts("char")
         vals = {c[2] for c in cs}
-        ops = {c[1] for c in cs}
-        if len(vals) != 1 or len(next(iter(vals))) != 1 or ops != {"NotEq", "Eq"} or len(cs) != 2:
-            raise A(f"Token.tokenize: char != <c> / char == <c> comparisons, got {cs}")
+        if not cs or len(vals) != 1 or len(next(iter(vals))) != 1 or not {c[1] for c in cs} <= {"NotEq", "Eq"}:
+            raise A(f"Token.tokenize: <char> != <c> / <char> == <c> comparisons against one character, got {cs}")
         return next(iter(vals))
 
     def prop_prefix():
-        cs = cmp_consts(lambda n: ast.unparse(n.left) == "line[first]")
+        cs = cmp_consts("first")
         vals = {c[2] for c in cs}
-        if len(cs) != 2 or len(vals) != 1 or {c[1] for c in cs} != {"Eq"} or len(next(iter(vals))) != 1:
-            raise A(f"Token.tokenize: line[first] == <c> (twice), got {cs}")
+        if not cs or len(vals) != 1 or {c[1] for c in cs} != {"Eq"} or len(next(iter(vals))) != 1:
+            raise A(f"Token.tokenize: <line>[<first>] == <c>, got {cs}")
         return next(iter(vals))
 
     def loop_kw():
-        cs = cmp_consts(lambda n: ast.unparse(n.left).startswith("line[first:"))
+        cs = cmp_consts("slice")
         vals = {c[2] for c in cs}
-        if len(cs) != 2 or len(vals) != 1 or {c[1] for c in cs} != {"Eq"} or {c[0] for c in cs} != {"line[first:index]", "line[first:]"}:
-            raise A(f"Token.tokenize: line[first:index] == <kw> and line[first:] == <kw>, got {cs}")
+        if not cs or len(vals) != 1 or {c[1] for c in cs} != {"Eq"}:
+            raise A(f"Token.tokenize: <line>[<first>:<index>] == <kw> / <line>[<first>:] == <kw>, got {cs}")
         return next(iter(vals))
 
     def classify_order():
-        # both if/elif/else chains: PROPERTY test first, LOOP second, LITERAL last
+        # every if/elif/else classification chain: PROPERTY test first, LOOP second, LITERAL last
+        roles = tok_roles()
         chains = []
         for n in ast.walk(tok_fn()):
-            if isinstance(n, ast.If) and ast.unparse(n.test).replace(" ", "").startswith("line[first]=="):
+            if isinstance(n, ast.If) and isinstance(n.test, ast.Compare) and isinstance(n.test.left, ast.Subscript) and isinstance(n.test.left.value, ast.Name) \
+                    and n.test.left.value.id == roles["line"] and isinstance(n.test.left.slice, ast.Name):
                 kinds = []
                 cur = n
                 while True:
@@ -133,12 +255,12 @@ def translate(src):
                         kinds.append(re.search(r"TokenType\.(\w+)", ast.unparse(cur.orelse[0])).group(1))
                         break
                 chains.append(kinds)
-        if len(chains) != 2 or chains[0] != chains[1]:
-            raise A(f"Token.tokenize: two identical classification chains, got {chains}")
+        if not chains or any(c != chains[0] for c in chains):
+            raise A(f"Token.tokenize: identical classification chains, got {chains}")
         return chains[0]
 
     def name_drop():
-        fn = src.find(rel, "Token.parse_column")
+        fn = _canon(src.find(rel, "Token.parse_column"), ["tokens", "column"])
         for n in ast.walk(fn):
             if isinstance(n, ast.Return) and isinstance(n.value, ast.Subscript) and isinstance(n.value.slice, ast.Slice):
                 s = n.value.slice
@@ -146,8 +268,18 @@ def translate(src):
                     return int(s.lower.value)
         raise A("Token.parse_column: return column.value[<k>:]")
 
+    _w = {}
+
     def wfn():
-        return src.find(rel, "Starfile.write")
+        if "fn" not in _w:
+            _w["fn"] = _canon(src.find(rel, "Starfile.write"), WRITE_LOCALS)
+        return _w["fn"]
+
+    def winner(name):
+        for n in ast.walk(wfn()):
+            if isinstance(n, ast.FunctionDef) and n.name == name:
+                return n
+        raise A(f"Starfile.write.{name}")
 
     def precision():
         fn = wfn()
@@ -164,7 +296,7 @@ def translate(src):
         return True
 
     def cell_format():
-        fn = src.find(rel, "Starfile.write.format_value")
+        fn = winner("format_value")
         cs = _consts(fn)
         m = [re.fullmatch(r"\{:(.?)([<>^])(\d+)\}", c) for c in cs]
         m = [x for x in m if x]
@@ -201,7 +333,7 @@ def translate(src):
         raise A("Starfile.write: write_function = ...")
 
     def fpieces(fname, holes):
-        fn = src.find(rel, "Starfile.write." + fname)
+        fn = winner(fname)
         calls = [n for n in ast.walk(fn) if isinstance(n, ast.Call) and ast.unparse(n.func) == "file.write"]
         if len(calls) != 1 or not isinstance(calls[0].args[0], ast.JoinedStr):
             raise A(f"{fname}: one file.write(f-string)")
@@ -257,8 +389,7 @@ def translate(src):
         return out
 
     def _body(fn):
-        sts = [st for st in fn.body if not (isinstance(st, ast.Expr) and isinstance(st.value, ast.Constant) and isinstance(st.value.value, str))]
-        return ";".join(re.sub(r"\s+", "", ast.unparse(st).replace("\n", ";")) for st in sts)
+        return _dump(fn)
 
     def comments_branch():
         """`if comment is not None: for c in comment: file.write(f"\n# {c}"); file.write("\n")`, before the specifier line"""
@@ -280,30 +411,33 @@ def translate(src):
         return [pieces, e.value.args[0].value]
 
     def comment_value():
+        roles = tok_roles()
+        back = {roles["line"]: "line", roles["index"]: "index", roles["char"]: "char"}
         for n in ast.walk(tok_fn()):
             if isinstance(n, ast.Call) and ast.unparse(n.func) == "Token" and len(n.args) == 3 and ast.unparse(n.args[0]) == "TokenType.COMMENT":
-                return ast.unparse(n.args[1]).replace(" ", "")
+                return re.sub(r"\b\w+\b", lambda m: back.get(m.group(0), m.group(0)), ast.unparse(n.args[1])).replace(" ", "")
         raise A("Token.tokenize: Token(TokenType.COMMENT, <value>, ...)")
 
     def read_fn():
         return src.find(rel, "Starfile.read")
 
     def comments_order():
-        for n in ast.walk(read_fn()):
-            if isinstance(n, ast.Call) and ast.unparse(n.func) == "comments.append":
-                return ast.unparse(n.args[0]).replace(" ", "")
-        raise A("Starfile.read: comments.append(...)")
+        """which parse function's comment list goes where in `comments.append(a + b + c)` (names of locals do not matter)"""
+        d = _dump(read_fn())
+        origin = {m.group(1): m.group(2) for m in re.finditer(r"(v\d+),v\d+=Token\.(parse_\w+)\(", d)}
+        m = re.search(r"v\d+\.append\(((?:v\d+\+)+v\d+)\)", d)
+        if not m:
+            raise A("Starfile.read: comments.append(a + b + c)")
+        return "+".join(origin.get(v, "?") for v in m.group(1).split("+"))
 
     def data_id_branch():
         fn = read_fn()
-        names = [a.arg for a in fn.args.args]
-        d = dict(zip(names[len(names) - len(fn.args.defaults):], fn.args.defaults))
-        if "data_id" not in d or ast.unparse(d["data_id"]) != "None":
+        if "data_id=None" not in _signature(fn):
             raise A("Starfile.read(file_path, data_id=None)")
-        last = fn.body[-1]
-        if not isinstance(last, ast.If):
+        if not isinstance(fn.body[-1], ast.If):
             raise A("Starfile.read: final if data_id is not None")
-        return re.sub(r"\s+", "", ast.unparse(last).replace("\n", ";"))
+        d = _dump(fn)
+        return d[d.rindex(";if") + 1:]
 
     def ncc_fn():
         return _body(src.find(rel, "Token.parse_newline_or_comments"))
@@ -332,13 +466,57 @@ def translate(src):
     ncc = src.anchor("parse_newline_or_comments:body", ncc_fn)
     gsi = src.anchor("get_specifier_id:body", lambda: _body(src.find(rel, "Starfile.get_specifier_id")))
     gfc = src.anchor("get_frame_and_comments:body", lambda: _body(src.find(rel, "Starfile.get_frame_and_comments")))
+    # the parser half and the never-executed-before branches: normalised dumps of whole bodies (G5); signature defaults (G1)
+    PARSER = ["Token.parse_specifier", "Token.parse_columns", "Token.parse_column", "Token.parse_rows", "Token.check", "Token.consume",
+              "Token.check_then_consume", "Token.lookahead", "Starfile.read", "Starfile._to_numeric_if_possible", "Starfile.remove_lines"]
+    bodies = []
+    for q in PARSER:
+        bodies.append((q, src.anchor(q.split(".")[-1] + ":body", lambda q=q: _dump(src.find(rel, q))) or ""))
+
+    def write_defaults():
+        """the statements of Starfile.write before the block loop: defaults of specifiers/comments, the length check, round"""
+        fn = wfn()
+        k = next((i for i, st in enumerate(fn.body) if isinstance(st, ast.With)), None)
+        if k is None:
+            raise A("Starfile.write: with open(path, 'w') as file")
+        head = copy.deepcopy(fn); head.body = fn.body[:k]
+        return _dump(head)
+
+    def default_specifier():
+        for n in ast.walk(wfn()):
+            if isinstance(n, ast.If) and isinstance(n.test, ast.Compare) and isinstance(n.test.ops[0], ast.Is) and ast.unparse(n.test.comparators[0]) == "None" \
+                    and len(n.body) == 1 and isinstance(n.body[0], ast.Assign) and ast.unparse(n.body[0].targets[0]) == ast.unparse(n.test.left):
+                v = n.body[0].value
+                if isinstance(v, ast.BinOp) and isinstance(v.op, ast.Mult) and isinstance(v.left, ast.List) and len(v.left.elts) == 1 and isinstance(v.left.elts[0], ast.Constant) \
+                        and isinstance(v.left.elts[0].value, str) and ast.unparse(v.right).startswith("len("):
+                    return v.left.elts[0].value
+        raise A("Starfile.write: if specifiers is None: specifiers = [<name>] * len(frames)")
+
+    def bool_default(qual, arg):
+        sig = dict(x.split("=") for x in _signature(src.find(rel, qual)) if "=" in x)
+        if sig.get(arg) not in ("True", "False"):
+            raise A(f"{qual}: {arg}=<True|False>, got {sig.get(arg)}")
+        return sig[arg] == "True"
+
+    wsig = src.anchor("write:signature", lambda: _signature(src.find(rel, "Starfile.write")))
+    rsig = src.anchor("read:signature", lambda: _signature(read_fn()))
+    rlsig = src.anchor("remove_lines:signature", lambda: _signature(src.find(rel, "Starfile.remove_lines")))
+    wdef = src.anchor("write:defaults-and-round", write_defaults)
+    dsp = src.anchor("write:default-specifier", default_specifier)
+    ncd = src.anchor("write:number_columns-default", lambda: bool_default("Starfile.write", "number_columns"))
+    ncd2 = src.anchor("remove_lines:number_columns-default", lambda: bool_default("Starfile.remove_lines", "number_columns"))
+    # documented fall-backs for everything (a missing anchor never changes what the model does; anchorsOk is false then)
+    wsig = wsig or ["frames", "path", "specifiers=None", "comments=None", "number_columns=True", "float_precision=6"]
+    rsig = rsig or ["file_path", "data_id=None"]
+    rlsig = rlsig or ["file_path", "lines_to_remove", "output_file=None", "data_specifier=None", "number_columns=True"]
+    wdef = wdef or ""; dsp = "data" if dsp is None else dsp; ncd = True if ncd is None else ncd; ncd2 = True if ncd2 is None else ncd2
     cb = cb or [["\n# ", ""], "\n"]; cv = cv or ""; co = co or ""; di = di or ""; ncc = ncc or ""; gsi = gsi or ""; gfc = gfc or ""
     # documented fall-backs (only used to keep the file syntactically valid; anchorsOk is false then)
     sep = sep or "\n"; cch = cch or "#"; ppf = ppf or "_"; lkw = lkw if lkw is not None else "loop_"; order = order or ["PROPERTY", "LOOP", "LITERAL"]
     drop = 1 if drop is None else drop; prec = 6 if prec is None else prec; cf = cf or ["", "<", 10]; cs = "\t" if cs is None else cs
     rend = "\n" if rend is None else rend; sg = "stopgap" if sg is None else sg; cond = cond or ""; ln = ln or ["_", " #", "\n"]; lp = lp or ["_", "\n"]
     sl = sl or ["\n", "\n\n"]; sk = sk or []
-    loop_line, stop_extra, block_end, label_start, label_call = "", "", "", 0, ""
+    loop_line, stop_extra, block_end, label_start, label_call = "loop_\n", "\n", "\n", 1, "write_function(column,index)"  # documented values (used when the skeleton is not recognised)
     shape_ok = False
     try:
         # expected skeleton: W:f(spec) W:'loop_\n' LABELS:<start>:write_function(column,index) STOPGAP:'\n' ROWS W:'\n'
@@ -387,6 +565,16 @@ def dataIdBranch : String := {core.lean_str(di)}
 def newlineOrComments : String := {core.lean_str(ncc)}
 def getSpecifierId : String := {core.lean_str(gsi)}
 def getFrameAndComments : String := {core.lean_str(gfc)}
+-- signature defaults (G1) and the statements of Starfile.write before the block loop
+def writeSignature : List String := {core.lean_str_list(wsig)}
+def readSignature : List String := {core.lean_str_list(rsig)}
+def removeLinesSignature : List String := {core.lean_str_list(rlsig)}
+def writeDefaults : String := {core.lean_str(wdef)}
+def defaultSpecifier : List Char := {_chars(dsp)}
+def numberColumnsDefault : Bool := {"true" if ncd else "false"}
+def removeLinesNumberColumnsDefault : Bool := {"true" if ncd2 else "false"}
+-- normalised whole-body dumps of the parser half, the read loop, the numeric conversion and remove_lines (locals renamed v0, v1, ...; messages dropped)
+{chr(10).join(f"def body_{q.split('.')[-1].lstrip('_')} : String := {core.lean_str(b)}" for q, b in bodies)}
 end CryoCat.Gen.C02
 """
 
@@ -399,7 +587,10 @@ def line_tokens(line):
 
 
 def indep_parse(text):
-    """blocks [{name, cols, rows}] of a STAR text made of data blocks with one loop each, or the string 'malformed:<why>'"""
+    """blocks [{name, cols, rows}] of a STAR text made of data blocks with one loop each, or the string 'malformed:<why>'.
+    Line based and independent of cryoCAT and of the Lean model. It follows the STATEMENT, not the reader: blank / comment lines
+    are optional everywhere they are permitted (a block may directly follow the rows of the previous one: a line holding one
+    literal whose next non-blank line is `loop_` starts a block) and the text may end anywhere after the first label."""
     lines = [line_tokens(l) for l in text.split("\n")]
     n, p, blocks = len(lines), 0, []
     is_lit = lambda t: not t.startswith("_") and t != "loop_"
@@ -408,6 +599,12 @@ def indep_parse(text):
         while p < n and not lines[p][0]:
             p += 1
         return p
+
+    def block_start(p):
+        if len(lines[p][0]) != 1 or not is_lit(lines[p][0][0]):
+            return False
+        q = skip(p + 1)
+        return q < n and lines[q][0] == ["loop_"]
 
     while True:
         p = skip(p)
@@ -426,18 +623,39 @@ def indep_parse(text):
             cols.append(lines[p][0][0][1:]); p += 1
         if not cols:
             return "malformed:no-labels"
-        if p == n:
-            return "malformed:ends-inside-labels"
         p = skip(p)
         rows = []
-        while p < n and len(lines[p][0]) == len(cols) and lines[p][1] is None and all(is_lit(t) for t in lines[p][0]):
+        while p < n and len(lines[p][0]) == len(cols) and lines[p][1] is None and all(is_lit(t) for t in lines[p][0]) and not block_start(p):
             rows.append(lines[p][0]); p += 1
-        if p < n and lines[p][0]:
-            return "malformed:ragged-row-or-missing-separator"
+        if p < n and lines[p][0] and not block_start(p):
+            return "malformed:ragged-row-or-stray-line"
+        if not rows and skip(p) < n:
+            return "malformed:empty-loop-not-last"
         blocks.append(dict(name=name, cols=cols, rows=rows))
 
 
+def layout_class(text):
+    """which of the two layouts the statement permits but the reader rejects a text has: 'K3' = ends on the last label line of
+    an empty last block without final newline; 'K4' = a block name line directly follows a row of the previous block"""
+    out = set()
+    lines = [line_tokens(l.rstrip("\r")) for l in text.split("\n")]
+    if lines and len(lines[-1][0]) == 1 and lines[-1][0][0].startswith("_"):
+        out.add("K3")
+    ind = indep_parse(text.replace("\r\n", "\n"))
+    if not isinstance(ind, str) and len(ind) > 1:
+        is_lit = lambda t: not t.startswith("_") and t != "loop_"
+        for p in range(1, len(lines) - 1):
+            if len(lines[p][0]) == 1 and is_lit(lines[p][0][0]) and lines[p - 1][0] and all(is_lit(t) for t in lines[p - 1][0]) \
+                    and next((l[0] for l in lines[p + 1:] if l[0]), None) == ["loop_"] and lines[p - 1][1] is None:
+                # previous line is a row (or a name line, then the text is malformed anyway) and this line starts a block
+                out.add("K4")
+    return out
+
+
 NUM_RE = re.compile(r"[+-]?((\d+\.?\d*|\.\d+)([eE][+-]?\d+)?|[iI][nN][fF]([iI][nN][iI][tT][yY])?)\Z")
+
+
+INT_RE = re.compile(r"[+-]?\d+\Z")
 
 
 def is_num(tok):
@@ -457,8 +675,10 @@ def _float_value(rng):
         return rng.randint(-10 ** 7, 10 ** 7) / 10 ** 6 + 5e-7
     if k < 0.84:
         return rng.choice([1e-7, -3e-7, 4.9e-7, 5.1e-7, 1e-12, -2.5e-9, 5e-324, 1.5e-6, 0.000123])
-    if k < 0.90:
+    if k < 0.88:
         return rng.choice([1e15, 1.5e16, -2e17, 1e22, 123456789012.34567, 2.0 ** 53, 1e15 + 0.3, -4503599627370497.5, 3.3e100, 1e300])
+    if k < 0.90:  # random mantissas at magnitudes where numpy.round's multiply/divide and to_numeric each cost an ulp
+        return rng.choice([-1, 1]) * rng.uniform(1, 10) * 10.0 ** rng.randint(9, 40)
     if k < 0.94:
         return rng.choice([0.0, -0.0])
     return rng.gauss(0, 1) * 10 ** rng.randint(-5, 8)
@@ -473,10 +693,19 @@ def _int_value(rng):
     return rng.choice([0, -1, 2 ** 31, -2 ** 40, 10 ** 15, 9007199254740993, -(2 ** 62)])
 
 
+# characters str.isspace() REJECTS although they look like (or once were) spaces, and other non-ASCII letters / signs: word characters
+NON_SPACE = ["\u200b", "\u180e", "\ufeff", "\u00ad", "\u2060", "\u00b5", "\u00e9", "\u00c5", "\u03b1", "\u65e5", "\u00b0", "\u2212", "\u0663", "\U0001f600"]
+UNI_SPACES = ["\x1c", "\x1d", "\x1e", "\x1f", "\x85", "\xa0", "\u1680", "\u2000", "\u2003", "\u200a", "\u2028", "\u2029", "\u202f", "\u205f", "\u3000"]
+
+
 def _text_token(rng):
     k = rng.random()
-    if k < 0.6:
+    if k < 0.55:
         return rng.choice(TEXT_SURE)
+    if k < 0.62:  # non-ASCII word characters (none of them white space for str.isspace)
+        base = rng.choice(["tomo", "A", "mic_1", "x"])
+        i = rng.randint(0, len(base))
+        return base[:i] + rng.choice(NON_SPACE) + base[i:]
     alphabet = "abcdfghijklmopqrstuvwxyzABCDFGHIJKLMOPQRSTUVWXYZ"
     extra = "0123456789_./-:@+=,;!$%&()*<>?[]^{}|~'\"\\`neEN"
     n = rng.choice([1, 2, 3, 5, 8, 9, 10, 11, 12, 20, 40])
@@ -524,27 +753,60 @@ def _labels(rng, n):
     return out
 
 
-def gen_write(rng, tier):
-    nb = rng.choice([1, 1, 1, 2, 2, 3, 4])
+SHORT_TEXT = ["A", "B", "x", "halfA", "abc", "Zr", "q", "yes", "tomo_12", "mic_1.mrc", "a.b.c", "x_", "loop", "data_x", "p'q", "a=b"]  # ASCII only: equal character counts must give equal byte counts
+
+
+def _tame_float(rng):
+    """floats whose printed form has at most 15 significant digits and 10 characters: read back exactly by any decimal parser"""
+    k = rng.random()
+    if k < 0.3:
+        return float(rng.randint(-2000, 2000))
+    if k < 0.9:
+        return round(rng.uniform(-500, 500), rng.randint(1, 4))
+    return rng.choice([0.0, -0.0, 1e-05, 0.5, -0.25, 1e-06, 123.456])
+
+
+def gen_write(rng, tier, plain=False, shape=None):
+    """plain: cells of at most 10 characters that every reader parses exactly (used by the re-write / remove_lines streams, where
+    the same shape must give the same file size); shape: (name, cols, types, nrows) per block to copy"""
+    nb = len(shape) if shape else rng.choice([1, 1, 1, 2, 2, 3, 4])
     blocks = []
     for b in range(nb):
-        nrows, ncols = _sizes(rng, tier)
-        if b == nb - 1 and rng.random() < 0.06:
-            nrows = 0
-        types = [rng.choice(["int", "float", "float", "text"]) for _ in range(ncols)]
+        if shape:
+            name, cols, types, nrows = shape[b]
+        else:
+            nrows, ncols = _sizes(rng, tier)
+            if plain:
+                nrows, ncols = min(nrows, 12), min(ncols, 8)
+            if b == nb - 1 and rng.random() < 0.06:
+                nrows = 0
+            types = [rng.choice(["int", "float", "float", "text"]) for _ in range(ncols)]
+            name, cols = rng.choice(NAMES), _labels(rng, ncols)
         data = []
         for t in types:
             if t == "int":
-                data.append([_int_value(rng) for _ in range(nrows)])
+                data.append([(rng.randint(-99999, 999999) if plain else _int_value(rng)) for _ in range(nrows)])
             elif t == "float":
-                data.append([f2b(_float_value(rng)) for _ in range(nrows)])
+                data.append([f2b(_tame_float(rng) if plain else _float_value(rng)) for _ in range(nrows)])
             else:
-                data.append(_text_column(rng, nrows))
-        blocks.append(dict(name=rng.choice(NAMES), cols=_labels(rng, ncols), types=types, data=data))
+                data.append([rng.choice(SHORT_TEXT) for _ in range(nrows)] if plain else _text_column(rng, nrows))
+        blocks.append(dict(name=name, cols=list(cols), types=list(types), data=data))
     case = dict(kind="write", number_columns=rng.random() < 0.6, blocks=blocks)
     if rng.random() < 0.35:  # the `comments` argument of Starfile.write: per block None or a list of comment lines
         case["comments"] = [None if rng.random() < 0.3 else [rng.choice(COMMENTS) for _ in range(rng.choice([0, 1, 1, 2, 3]))] for _ in blocks]
-    _selection(rng, case, [b["name"] for b in blocks])
+    # G1: every keyword with a default is LEFT OUT of the call in about 30 % of the cases (the library's own default is exercised)
+    omit = []
+    if rng.random() < 0.3:
+        omit.append("number_columns"); case["number_columns"] = True  # documented default (theorem signature_defaults_documented)
+    if rng.random() < 0.3:
+        omit.append("specifiers")  # documented default: every block is called `data`
+    if "comments" not in case and rng.random() < 0.5:
+        omit.append("comments")
+    if omit:
+        case["omit"] = omit
+    _selection(rng, case, _eff_names(case))
+    if plain:
+        return case
     k = rng.random()
     if k < 0.012:  # class of open finding C02-K1: a text cell that is the reserved word
         b = rng.choice(blocks)
@@ -558,6 +820,72 @@ def gen_write(rng, tier):
         if fc:
             j = rng.choice(fc)
             b["data"][j][rng.randrange(len(b["data"][j]))] = f2b(rng.choice([1e305, -1.7e308, 1.8e302, -2e303]))
+    return case
+
+
+def _eff_names(case):
+    """the block names in effect: the given specifiers, or the documented default `data` when the keyword is left out"""
+    return ["data"] * len(case["blocks"]) if "specifiers" in case.get("omit", []) else [b["name"] for b in case["blocks"]]
+
+
+def _shape(case):
+    return [(b["name"], b["cols"], b["types"], len(b["data"][0]) if b["data"] else 0) for b in case["blocks"]]
+
+
+def gen_rewrite(rng, tier):
+    """G2, cross-call state: two (or three) Starfile.write / Starfile.read rounds in ONE process on the SAME path. `same-shape`: the
+    later tables differ in their values only (same names, labels, row count, all cells <= 10 characters -> files of identical
+    byte length, written within the same second); `any`: an unrelated second list; `reuse-list`: the very same caller-owned list
+    object is handed to Starfile.write again (other header style). Every read is judged against the tables of ITS write."""
+    mode = rng.choice(["same-shape", "same-shape", "same-shape", "any", "reuse-list"])
+    a = gen_write(rng, tier, plain=True)
+    for k in ("data_id", "specifier"):
+        a.pop(k, None)
+    steps = [a]
+    for _ in range(rng.choice([1, 1, 2])):
+        if mode == "same-shape":
+            b = gen_write(rng, tier, plain=True, shape=_shape(a))
+            for k in ("number_columns", "comments", "omit"):
+                b.pop(k, None)
+                if k in a:
+                    b[k] = copy.deepcopy(a[k])
+        elif mode == "any":
+            b = gen_write(rng, tier, plain=True)
+        else:
+            b = copy.deepcopy(a)
+            b["number_columns"] = not a["number_columns"]
+            b["omit"] = [o for o in a.get("omit", []) if o != "number_columns"]
+        for k in ("data_id", "specifier"):
+            b.pop(k, None)
+        steps.append(b)
+    return dict(kind="rewrite", mode=mode, steps=steps)
+
+
+def gen_remove(rng, tier):
+    """Starfile.remove_lines on a written file: the branch that feeds the specifiers and comments returned by Starfile.read back
+    into Starfile.write (positions non-negative; a block other than the last keeps at least one row)"""
+    base = gen_write(rng, tier, plain=True)
+    for k in ("data_id", "specifier"):
+        base.pop(k, None)
+    names = _eff_names(base)
+    k = rng.random()
+    spec = None if k < 0.3 else (rng.choice(names) if k < 0.9 else "data_absent")
+    bi = 0 if spec is None else (names.index(spec) if spec in names else None)
+    idx = []
+    if bi is not None:
+        n = len(base["blocks"][bi]["data"][0]) if base["blocks"][bi]["data"] else 0
+        last = bi == len(names) - 1
+        m = rng.choice([0, 1, 1, 2, 3, n])
+        pos = list(range(n))
+        rng.shuffle(pos)
+        idx = pos[:min(m, n if last else max(0, n - 1))]
+        if rng.random() < 0.06:
+            idx = idx + [n + rng.randint(0, 2)]  # beyond the last row: IndexError
+        elif idx and rng.random() < 0.1:
+            idx = idx + [idx[0]]  # a position listed twice
+    case = dict(kind="remove", base=base, idx=idx, specifier=spec, output=rng.random() < 0.8)
+    if rng.random() < 0.7:  # G1: number_columns of remove_lines left out in 30 %
+        case["number_columns2"] = rng.random() < 0.5
     return case
 
 
@@ -578,9 +906,11 @@ def _pad(rng, allow_empty=True):
     k = rng.random()
     if allow_empty and k < 0.55:
         return ""
-    if k < 0.97:
+    if k < 0.95:
         return rng.choice(WS_PAD)
-    return rng.choice(["\x0c", " \x0b", "\x1c "])
+    if k < 0.97:
+        return rng.choice(["\x0c", " \x0b", "\x1c "])
+    return rng.choice(UNI_SPACES) + rng.choice(["", " ", "\t"])  # the rest of the str.isspace set
 
 
 def _skip_line(rng, comment_ok=True):
@@ -650,7 +980,9 @@ def gen_read(rng, tier):
                     parts.append({"tab": "\t", "pad10": " " * max(1, 10 - len(r[j - 1])) + "\t", "spaces": " " * rng.randint(1, 4), "wild": _pad(rng, False)}[sep_style])
                 parts.append(t)
             row_lines.append((_pad(rng) if sep_style == "wild" else "") + "".join(parts) + (_pad(rng) if rng.random() < 0.5 else ""))
-        pre = [_skip_line(rng) for _ in range(rng.choice([0, 0, 1, 1, 2, 3]) if b == 0 else rng.choice([1, 1, 2, 3]))]
+        # a block directly after the rows of the previous one (no blank / comment line between): permitted by the statement
+        # ("may ... separate blocks"), rejected by the reader -> class of open finding C02-K4
+        pre = [_skip_line(rng) for _ in range(rng.choice([0, 0, 1, 1, 2, 3]) if b == 0 else (0 if rng.random() < 0.02 else rng.choice([1, 1, 2, 3])))]
         mid = [_skip_line(rng, comment_ok=False) for _ in range(rng.choice([0, 1, 1, 2]))]
         post = [_skip_line(rng) for _ in range(rng.choice([0, 0, 0, 1, 2]))]
         blocks.append(dict(pre=pre, name_line=_pad(rng) + name + _pad(rng), mid=mid, loop_line=_pad(rng) + "loop_" + _pad(rng),
@@ -658,8 +990,8 @@ def gen_read(rng, tier):
     trailing = [_skip_line(rng) for _ in range(rng.choice([0, 0, 1, 2]))]
     final_nl = rng.random() < 0.7
     last = blocks[-1]
-    if not last["row_lines"] and not last["post"] and not trailing:
-        final_nl = True  # a file that ends inside the label list is outside the statement
+    if not last["row_lines"] and not last["post"] and not trailing and rng.random() < 0.6:
+        final_nl = True  # else: the text ends on the last label line of an empty last block without final newline -> class C02-K3
     case = dict(kind="read", blocks=blocks, trailing=trailing, final_newline=final_nl, eol=rng.choice(["lf", "lf", "crlf"]))
     _selection(rng, case, [b["x"]["name"] for b in blocks])
     return case
@@ -747,9 +1079,13 @@ def gen_malformed(rng, tier):
 def generate(rng, tier, n):
     for i in range(n):
         k = rng.random()
-        if k < 0.40:
+        if k < 0.34:
             yield gen_write(rng, tier)
-        elif k < 0.85:
+        elif k < 0.42:
+            yield gen_rewrite(rng, tier)
+        elif k < 0.49:
+            yield gen_remove(rng, tier)
+        elif k < 0.87:
             yield gen_read(rng, tier)
         else:
             yield gen_malformed(rng, tier)
@@ -770,7 +1106,7 @@ def _frame_obs(df):
             kinds.append("float"); data.append([f2b(float(v)) for v in s])
         else:
             kinds.append("text"); data.append([v if isinstance(v, str) else f"<{type(v).__name__}>{v}" for v in s])
-    return dict(cols=cols, kinds=kinds, nrows=int(df.shape[0]), data=data)
+    return dict(cols=cols, kinds=kinds, nrows=int(df.shape[0]), data=data, dtypes=[str(df.iloc[:, j].dtype) for j in range(df.shape[1])])
 
 
 def _read_obs(path):
@@ -791,7 +1127,7 @@ def _read_obs(path):
         import traceback
         fr = [f for f in traceback.extract_tb(e.__traceback__) if "/cryocat/" in f.filename]
         where = f"{os.path.basename(fr[-1].filename)}:{fr[-1].lineno}" if fr else ""
-        return dict(error="crash:" + type(e).__name__, message=f"{type(e).__name__}: {str(e)[:200]} @{where}")
+        return dict(error="crash:" + type(e).__name__, message=f"{type(e).__name__}: {str(e)[:200]} @{where}", foreign=not fr)
     return dict(specifiers=[str(s) for s in specifiers], frames=[_frame_obs(f) for f in frames],
                 comments=[[c if isinstance(c, str) else f"<{type(c).__name__}>" for c in cs] for cs in comments])
 
@@ -828,28 +1164,110 @@ def _sel_obs(path, case):
     return out
 
 
-def run_impl(case):
+def _frames_of(case):
     import numpy as np, pandas as pd
+    frames = []
+    for b in case["blocks"]:
+        d = {}
+        for c, t, col in zip(b["cols"], b["types"], b["data"]):
+            if t == "int":
+                d[c] = np.array(col, dtype=np.int64)
+            elif t == "float":
+                d[c] = np.array([b2f(x) for x in col], dtype=np.float64)
+            else:
+                d[c] = pd.Series(list(col), dtype=object) if case.get("object_dtype") else list(col)
+        frames.append(pd.DataFrame(d, columns=b["cols"]))
+    return frames
+
+
+def _same_frame(a, b):
+    return list(a.columns) == list(b.columns) and [str(x) for x in a.dtypes] == [str(x) for x in b.dtypes] and a.shape == b.shape and bool(a.equals(b))
+
+
+def _do_write(frames, path, case):
+    """one call of Starfile.write with the keywords the case asks for (left-out keywords are really left out); returns what the
+    call did to the caller-owned arguments: the DataFrame objects, the list holding them, the specifiers and comments lists"""
+    import numpy as np
+    from cryocat.starfileio import Starfile
+    omit = case.get("omit", [])
+    kw = {}
+    specs = [b["name"] for b in case["blocks"]]
+    coms = copy.deepcopy(case.get("comments"))
+    if "specifiers" not in omit:
+        kw["specifiers"] = specs
+    if "comments" not in omit:
+        kw["comments"] = coms
+    if "number_columns" not in omit:
+        kw["number_columns"] = case["number_columns"]
+    objs = list(frames)
+    snap = [f.copy(deep=True) for f in frames]
+    specs0, coms0 = list(specs), copy.deepcopy(coms)
+    Starfile.write(frames, path, **kw)
+    with np.errstate(all="ignore"):
+        entries = "same-objects" if all(x is y for x, y in zip(frames, objs)) and len(frames) == len(objs) else \
+            "rounded-copies" if len(frames) == len(objs) and all(_same_frame(x, y.round(PRECISION)) for x, y in zip(frames, snap)) else "other"
+    return dict(tables_changed=[i for i, (o, c) in enumerate(zip(objs, snap)) if not _same_frame(o, c)], list_entries=entries,
+                specifiers_changed=specs != specs0, comments_changed=coms != coms0)
+
+
+def _write_round(case, path, frames=None):
+    frames = _frames_of(case) if frames is None else frames
+    args = _do_write(frames, path, case)
+    text = open(path, "rb").read().decode("utf-8")
+    return dict(text=text, read=_read_obs(path), sel=_sel_obs(path, case), args=args), frames
+
+
+def _returned_obs(ret):
+    frames, specifiers, comments = ret
+    return dict(specifiers=[str(x) for x in specifiers], frames=[_frame_obs(f) for f in frames], comments=[list(c) for c in comments])
+
+
+def run_impl(case):
+    import warnings
     from cryocat.starfileio import Starfile
     with tempfile.TemporaryDirectory(prefix="c02_") as td:
         p = os.path.join(td, "t.star")
         if case["kind"] == "write":
-            frames = []
-            for b in case["blocks"]:
-                d = {}
-                for c, t, col in zip(b["cols"], b["types"], b["data"]):
-                    if t == "int":
-                        d[c] = np.array(col, dtype=np.int64)
-                    elif t == "float":
-                        d[c] = np.array([b2f(x) for x in col], dtype=np.float64)
-                    else:
-                        d[c] = pd.Series(list(col), dtype=object) if case.get("object_dtype") else list(col)
-                frames.append(pd.DataFrame(d, columns=b["cols"]))
-            Starfile.write(list(frames), p, specifiers=[b["name"] for b in case["blocks"]], comments=copy.deepcopy(case.get("comments")),
-                           number_columns=case["number_columns"])
-            raw = open(p, "rb").read()
-            text = raw.decode("utf-8")
-            return dict(text=text, read=_read_obs(p), sel=_sel_obs(p, case))
+            return _write_round(case, p)[0]
+        if case["kind"] == "rewrite":
+            # the SAME path for every round, one process; `reuse-list`: the same list object goes into every Starfile.write
+            out, frames = [], None
+            for st in case["steps"]:
+                o, fr = _write_round(st, p, frames if case["mode"] == "reuse-list" else None)
+                frames = fr
+                out.append(o)
+            return dict(steps=out)
+        if case["kind"] == "remove":
+            obs, _ = _write_round(case["base"], p)
+            q = os.path.join(td, "out.star")
+            kw = {}
+            if case["output"]:
+                kw["output_file"] = q
+            if case["specifier"] is not None:
+                kw["data_specifier"] = case["specifier"]
+            if "number_columns2" in case:
+                kw["number_columns"] = case["number_columns2"]
+            rem = {}
+            try:
+                with warnings.catch_warnings(record=True) as w:
+                    warnings.simplefilter("always")
+                    ret = Starfile.remove_lines(p, list(case["idx"]), **kw)
+                rem["warned"] = any("not found" in str(x.message) for x in w)
+                rem["returned"] = None if ret is None else _returned_obs(ret)
+                if os.path.exists(q):
+                    rem["text"] = open(q, "rb").read().decode("utf-8")
+                    rem["read"] = _read_obs(q)
+            except IndexError as e:
+                rem["error"] = "IndexError"
+            except Exception as e:
+                import traceback
+                fr = [f for f in traceback.extract_tb(e.__traceback__) if "/cryocat/" in f.filename]
+                rem["error"] = "crash:" + type(e).__name__
+                rem["message"] = f"{type(e).__name__}: {str(e)[:200]} @{os.path.basename(fr[-1].filename)}:{fr[-1].lineno}" if fr else f"{type(e).__name__}: {str(e)[:200]}"
+                rem["foreign"] = not fr
+            rem["source_after"] = open(p, "rb").read().decode("utf-8") == obs["text"]  # remove_lines must not touch its input file
+            obs["remove"] = rem
+            return obs
         with open(p, "wb") as f:
             f.write(raw_text(case).encode("utf-8"))
         return dict(read=_read_obs(p), sel=_sel_obs(p, case))
@@ -891,7 +1309,10 @@ def _model_blocks(case):
     for b in case["blocks"]:
         n = len(b["data"][0]) if b["data"] else 0
         cols = [[_typed_cell(t, v) for v in col] for t, col in zip(b["types"], b["data"])]
-        out.append(dict(name=b["name"], cols=b["cols"], rows=[[cols[j][i] for j in range(len(cols))] for i in range(n)]))
+        blk = dict(cols=b["cols"], rows=[[cols[j][i] for j in range(len(cols))] for i in range(n)])
+        if "specifiers" not in case.get("omit", []):
+            blk["name"] = b["name"]  # no name = `specifiers` left out of the call: the driver uses the translated default
+        out.append(blk)
     return out
 
 
@@ -904,16 +1325,37 @@ def _sel_requests(case, text):
     return reqs
 
 
+def _print_request(case, op="print"):
+    pr = dict(op=op, blocks=_model_blocks(case))
+    if "number_columns" not in case.get("omit", []):
+        pr["number_columns"] = case["number_columns"]  # left out = keyword left out of the call: the driver uses the translated default
+    if case.get("comments") is not None:
+        pr["comments"] = case["comments"]
+    return pr
+
+
+def _write_requests(case, obs):
+    reqs = [_print_request(case)]
+    if isinstance(obs, dict) and "text" in obs:
+        reqs.append(dict(op="read", text=obs["text"]))
+        reqs += _sel_requests(case, obs["text"])
+    return reqs
+
+
 def requests(case, obs):
     if case["kind"] == "write":
-        pr = dict(op="print", number_columns=case["number_columns"], blocks=_model_blocks(case))
-        if case.get("comments") is not None:
-            pr["comments"] = case["comments"]
-        reqs = [pr]
-        if isinstance(obs, dict) and "text" in obs:
-            reqs.append(dict(op="read", text=obs["text"]))
-            reqs += _sel_requests(case, obs["text"])
-        return reqs
+        return _write_requests(case, obs)
+    if case["kind"] == "rewrite":
+        steps = obs.get("steps") if isinstance(obs, dict) and "steps" in obs else [None] * len(case["steps"])
+        return [r for st, o in zip(case["steps"], steps) for r in _write_requests(st, o)]
+    if case["kind"] == "remove":
+        rq = _print_request(case["base"], op="remove_lines")
+        rq["idx"] = list(case["idx"])
+        if case["specifier"] is not None:
+            rq["specifier"] = case["specifier"]
+        if "number_columns2" in case:
+            rq["number_columns2"] = case["number_columns2"]
+        return _write_requests(case["base"], obs) + [rq]
     # the driver gets the characters of the file as they are on disk (CRLF included); the LF form goes along for the
     # CRLF-normalisation theorem's instance (model(raw) must equal model(lf))
     raw = raw_text(case)
@@ -924,11 +1366,17 @@ def requests(case, obs):
 
 
 # ------------------------------------------------------------------ judgement
-def _close_after_round(orig, got):
-    """`equal after rounding to 6 decimals`: |got - orig| <= half a unit of the 6th decimal (+ 2 ulp of slack for the decimal/binary conversions)"""
+ULP_ROUND = 1.5   # numpy.round(v, 6) = rint(v * 1e6) / 1e6: the product costs up to one ulp of v (half an ulp of v*1e6), the quotient half an ulp
+ULP_PARSE = 2.0   # pandas.to_numeric: within 2 ulp of the correctly rounded value (recorded assumption, probed)
+
+
+def _close_after_round(orig, got, parse_ulps):
+    """`equal after rounding to 6 decimals`: |got - orig| <= half a unit of the 6th decimal, plus what the floating-point operations
+    the code is entitled to cost: numpy.round's multiply and divide (ULP_ROUND) and, for a value that went through
+    pandas.to_numeric, its conversion error (parse_ulps); float(token) used on the file text is correctly rounded (0)"""
     if math.isnan(got) or math.isinf(got):
         return False
-    return abs(got - orig) <= 0.5 * 10 ** -PRECISION * (1 + 1e-9) + 2 * math.ulp(orig)
+    return abs(got - orig) <= 0.5 * 10 ** -PRECISION * (1 + 1e-9) + (ULP_ROUND + parse_ulps) * math.ulp(max(abs(orig), abs(got)))
 
 
 def _inf_like(t):
@@ -962,7 +1410,14 @@ def _cmp_frames_with_tokens(read, blocks, clause_prefix, kind):
             k = fr["kinds"][j]
             if numeric:
                 if k not in ("int", "float"):
-                    out.append(dict(kind=kind, clause=clause_prefix + "-numeric-column-as-text", detail=f"block {bi} column {c}: tokens {toks[:4]} read as {k}")); continue
+                    out.append(dict(kind=kind, clause=clause_prefix + "-numeric-column-as-text", detail=f"block {bi} column {c}: tokens {toks[:4]} read as {k} ({fr.get('dtypes', ['?'] * (j + 1))[j]})")); continue
+                # G3: integer vs float typing -- a column of integer tokens [+-]?d+ is integer-typed, any other numeric column float
+                # (model `isIntTok` / `blockInts`; the harness's own regex; the implementation's dtype): always a correspondence matter
+                all_int = all(INT_RE.match(t) for t in toks)
+                if "ints" in b and b["ints"][j] != all_int:
+                    out.append(dict(kind="corr", clause="model-int-typing", detail=f"block {bi} column {c}: model says integer={b['ints'][j]}, harness regex says {all_int}"))
+                if (k == "int") != all_int:
+                    out.append(dict(kind="corr", clause=clause_prefix + "-int-vs-float-typing", detail=f"block {bi} column {c}: tokens {toks[:4]} (all integer tokens: {all_int}) read as {k} ({fr.get('dtypes', ['?'] * (j + 1))[j]})")); continue
                 vals = fr["data"][j] if k == "int" else [b2f(x) for x in fr["data"][j]]
                 for i, (t, v) in enumerate(zip(toks, vals)):
                     if not (k == "int" and not _inf_like(t) and int(t) == v) and not _same_number(float(t), float(v)):
@@ -976,66 +1431,111 @@ def _cmp_frames_with_tokens(read, blocks, clause_prefix, kind):
     return out
 
 
+def _raised(obs, spec_clause):
+    """G4: an exception with no frame inside /cryocat/ (harness or third-party failure), or a failure of the environment's
+    text encoding, is no spec finding"""
+    msg = obs["error"] + " @" + obs.get("where", "")
+    if not obs.get("where") or "UnicodeEncodeError" in obs["error"] or "UnicodeDecodeError" in obs["error"]:
+        return [dict(kind="corr", clause="harness-or-library-raised", detail=msg)]
+    return [dict(kind="spec", clause=spec_clause, detail=msg)]
+
+
+def _judge_file_text(text, blocks, names):
+    """(S1) a written text, through the independent tokenizer, against the tables"""
+    out = []
+    ind = indep_parse(text)
+    if isinstance(ind, str):
+        return [dict(kind="spec", clause="file-not-a-star-text", detail=f"independent tokenizer: {ind}")]
+    if [b["name"] for b in ind] != names:
+        return [dict(kind="spec", clause="file-block-names", detail=f"file has {[b['name'] for b in ind]}, written {names}")]
+    for bi, (fb, b) in enumerate(zip(ind, blocks)):
+        n = len(b["data"][0]) if b["data"] else 0
+        if fb["cols"] != b["cols"]:
+            out.append(dict(kind="spec", clause="file-labels", detail=f"block {bi}: file {fb['cols']}, table {b['cols']}")); continue
+        if len(fb["rows"]) != n:
+            out.append(dict(kind="spec", clause="file-row-count", detail=f"block {bi}: file {len(fb['rows'])}, table {n}")); continue
+        for j, (t, col) in enumerate(zip(b["types"], b["data"])):
+            for i, v in enumerate(col):
+                tok = fb["rows"][i][j]
+                try:
+                    good = (tok == v) if t == "text" else (int(tok) == v) if t == "int" else _close_after_round(b2f(v), float(tok), 0)
+                except ValueError:
+                    good = False
+                if not good:
+                    out.append(dict(kind="spec", clause="file-cell", detail=f"block {bi} column {b['cols'][j]} row {i}: table holds {v if t != 'float' else b2f(v)!r}, file holds {tok!r}")); break
+            else:
+                continue
+            break
+    return out
+
+
+def _judge_frames(rd, blocks, names):
+    """(S2) frames read back (or returned) against the tables: the statement itself, incl. the type of what comes back (G3)"""
+    out = []
+    if "error" in rd:
+        if rd.get("foreign"):
+            return [dict(kind="corr", clause="harness-or-library-raised", detail=str(rd.get("message")))]
+        return [dict(kind="spec", clause="readback-raises", detail=f"Starfile.read of the written file raised: {rd.get('message')}")]
+    if rd["specifiers"] != names:
+        return [dict(kind="spec", clause="readback-block-names", detail=f"read {rd['specifiers']}, written {names}")]
+    for bi, (fr, b) in enumerate(zip(rd["frames"], blocks)):
+        n = len(b["data"][0]) if b["data"] else 0
+        if fr["cols"] != b["cols"]:
+            out.append(dict(kind="spec", clause="readback-labels", detail=f"block {bi}: read {fr['cols']}, written {b['cols']}")); continue
+        if fr["nrows"] != n:
+            out.append(dict(kind="spec", clause="readback-row-count", detail=f"block {bi}: read {fr['nrows']}, written {n}")); continue
+        if n == 0:
+            continue
+        for j, (t, col) in enumerate(zip(b["types"], b["data"])):
+            k, got, dt = fr["kinds"][j], fr["data"][j], fr.get("dtypes", ["?"] * (j + 1))[j]
+            if t == "text":
+                if k != "text" or got != col:
+                    i = next((i for i, (a, v) in enumerate(zip(got, col)) if a != v), 0)
+                    out.append(dict(kind="spec", clause="readback-text", detail=f"block {bi} column {b['cols'][j]} row {i}: written {col[i]!r}, read {got[i]!r} (column read as {k}, dtype {dt})")); break
+            else:
+                if k not in ("int", "float"):
+                    out.append(dict(kind="spec", clause="readback-number-as-text", detail=f"block {bi} column {b['cols'][j]}: numeric column read as {k} (dtype {dt}): {got[:3]}")); break
+                if t == "int" and k != "int":  # G3: an integer column must come back integer-typed
+                    out.append(dict(kind="spec", clause="readback-integer-as-float", detail=f"block {bi} column {b['cols'][j]}: integer column read with dtype {dt}: {[b2f(x) for x in got[:3]]}")); break
+                if t == "float" and k != "float":
+                    out.append(dict(kind="corr", clause="readback-float-as-integer", detail=f"block {bi} column {b['cols'][j]}: float column read with dtype {dt} (the model prints every float with a `.`/exponent)")); break
+                vals = got if k == "int" else [b2f(x) for x in got]
+                orig = col if t == "int" else [b2f(x) for x in col]
+                bad = next((i for i, (a, v) in enumerate(zip(vals, orig)) if not ((a == v) if t == "int" else _close_after_round(v, float(a), ULP_PARSE))), None)
+                if bad is not None:
+                    out.append(dict(kind="spec", clause="readback-number", detail=f"block {bi} column {b['cols'][j]} row {bad}: written {orig[bad]!r}, read {vals[bad]!r}")); break
+    return out
+
+
+def _judge_args(args):
+    """G2: what the call did to the caller-owned arguments. The tables themselves, the specifiers and the comments must be left
+    alone; the list may hold the rounded copies afterwards (`frames[i] = f.round(float_precision)`, anchored as write:defaults-and-round).
+    No clause of the statement speaks about the arguments, so these are correspondence findings; damage that matters to the statement
+    shows as a spec finding of the next round of the `reuse-list` stream, which is judged against the original tables."""
+    out = []
+    if args.get("tables_changed"):
+        out.append(dict(kind="corr", clause="write-edits-callers-table", detail=f"Starfile.write changed the caller's DataFrame object(s) {args['tables_changed']} in place"))
+    if args.get("list_entries") == "other":
+        out.append(dict(kind="corr", clause="write-edits-callers-list", detail="after Starfile.write the caller's list holds neither its tables nor their round(6) copies"))
+    if args.get("specifiers_changed") or args.get("comments_changed"):
+        out.append(dict(kind="corr", clause="write-edits-callers-specifiers-or-comments", detail=str(args)))
+    return out
+
+
 def _judge_write(case, obs, resps):
     out = []
     if "error" in obs:
-        return [dict(kind="spec", clause="write-raises", detail=obs["error"] + " @" + obs.get("where", ""))]
-    blocks = case["blocks"]
-    # (S1) the written text, through the independent tokenizer
-    ind = indep_parse(obs["text"])
-    if isinstance(ind, str):
-        out.append(dict(kind="spec", clause="file-not-a-star-text", detail=f"independent tokenizer: {ind}"))
-    else:
-        if [b["name"] for b in ind] != [b["name"] for b in blocks]:
-            out.append(dict(kind="spec", clause="file-block-names", detail=f"file has {[b['name'] for b in ind]}, written {[b['name'] for b in blocks]}"))
-        else:
-            for bi, (fb, b) in enumerate(zip(ind, blocks)):
-                n = len(b["data"][0]) if b["data"] else 0
-                if fb["cols"] != b["cols"]:
-                    out.append(dict(kind="spec", clause="file-labels", detail=f"block {bi}: file {fb['cols']}, table {b['cols']}")); continue
-                if len(fb["rows"]) != n:
-                    out.append(dict(kind="spec", clause="file-row-count", detail=f"block {bi}: file {len(fb['rows'])}, table {n}")); continue
-                for j, (t, col) in enumerate(zip(b["types"], b["data"])):
-                    for i, v in enumerate(col):
-                        tok = fb["rows"][i][j]
-                        try:
-                            good = (tok == v) if t == "text" else (int(tok) == v) if t == "int" else _close_after_round(b2f(v), float(tok))
-                        except ValueError:
-                            good = False
-                        if not good:
-                            out.append(dict(kind="spec", clause="file-cell", detail=f"block {bi} column {b['cols'][j]} row {i}: table holds {v if t != 'float' else b2f(v)!r}, file holds {tok!r}")); break
-                    else:
-                        continue
-                    break
-    # (S2) read back: the statement itself
+        return _raised(obs, "write-raises")
+    blocks, names = case["blocks"], _eff_names(case)
+    given = "specifiers" not in case.get("omit", [])
+    s1 = _judge_file_text(obs["text"], blocks, names)   # (S1) the written text, through the independent tokenizer
     rd = obs["read"]
-    if "error" in rd:
-        out.append(dict(kind="spec", clause="readback-raises", detail=f"Starfile.read of the written file raised: {rd.get('message')}"))
-    elif rd["specifiers"] != [b["name"] for b in blocks]:
-        out.append(dict(kind="spec", clause="readback-block-names", detail=f"read {rd['specifiers']}, written {[b['name'] for b in blocks]}"))
-    else:
-        for bi, (fr, b) in enumerate(zip(rd["frames"], blocks)):
-            n = len(b["data"][0]) if b["data"] else 0
-            if fr["cols"] != b["cols"]:
-                out.append(dict(kind="spec", clause="readback-labels", detail=f"block {bi}: read {fr['cols']}, written {b['cols']}")); continue
-            if fr["nrows"] != n:
-                out.append(dict(kind="spec", clause="readback-row-count", detail=f"block {bi}: read {fr['nrows']}, written {n}")); continue
-            if n == 0:
-                continue
-            for j, (t, col) in enumerate(zip(b["types"], b["data"])):
-                k, got = fr["kinds"][j], fr["data"][j]
-                if t == "text":
-                    if k != "text" or got != col:
-                        i = next((i for i, (a, v) in enumerate(zip(got, col)) if a != v), 0)
-                        out.append(dict(kind="spec", clause="readback-text", detail=f"block {bi} column {b['cols'][j]} row {i}: written {col[i]!r}, read {got[i]!r} (column read as {k})")); break
-                else:
-                    if k not in ("int", "float"):
-                        out.append(dict(kind="spec", clause="readback-number-as-text", detail=f"block {bi} column {b['cols'][j]}: numeric column read as {k}: {got[:3]}")); break
-                    vals = got if k == "int" else [b2f(x) for x in got]
-                    orig = col if t == "int" else [b2f(x) for x in col]
-                    bad = next((i for i, (a, v) in enumerate(zip(vals, orig)) if not ((a == v) if t == "int" else _close_after_round(v, float(a)))), None)
-                    if bad is not None:
-                        out.append(dict(kind="spec", clause="readback-number", detail=f"block {bi} column {b['cols'][j]} row {bad}: written {orig[bad]!r}, read {vals[bad]!r}")); break
+    s2 = _judge_frames(rd, blocks, names)                # (S2) read back: the statement itself
+    for f in s1 + s2:
+        if not given and f["clause"] in ("file-block-names", "readback-block-names"):
+            f = dict(f, kind="corr", detail=f["detail"] + " (no specifiers given: `data` is the documented default, not part of the statement)")
+        out.append(f)
+    out += _judge_args(obs.get("args", {}))
     # (C) correspondence with the Lean writer and reader
     pr = resps[0]
     if "error" in pr:
@@ -1049,10 +1549,96 @@ def _judge_write(case, obs, resps):
         out += _judge_sel(case, obs, resps[2:])
     # the `comments` argument: every comment comes back stripped, in order, with its block (theorem written_comments_read_back);
     # that it does not disturb the tables is part of (S2) above
-    if "error" not in rd and rd["specifiers"] == [b["name"] for b in blocks] and not any(t == "text" and "loop_" in col for b in blocks for t, col in zip(b["types"], b["data"])):
+    if "error" not in rd and rd["specifiers"] == names and not any(t == "text" and "loop_" in col for b in blocks for t, col in zip(b["types"], b["data"])):
         want = [[c.strip() for c in (cs or [])] for cs in (case.get("comments") or [None] * len(blocks))]
         if rd.get("comments") != want:
             out.append(dict(kind="corr", clause="readback-comments", detail=f"written {case.get('comments')}, read {rd.get('comments')}"))
+    return out
+
+
+def _judge_rewrite(case, obs, resps):
+    """every round on the same path is judged like a single write: the read of round k against the tables of round k"""
+    if "error" in obs:
+        return _raised(obs, "write-raises")
+    out, k = [], 0
+    for si, (st, o) in enumerate(zip(case["steps"], obs["steps"])):
+        n = len(_write_requests(st, o))
+        for f in _judge_write(st, o, resps[k:k + n]):
+            if si:
+                f = dict(f, clause=f"round{si + 1}-" + f["clause"], detail=f"round {si + 1} on the same path ({case['mode']}): " + f.get("detail", ""))
+            out.append(f)
+        k += n
+    return out
+
+
+def _removed(case):
+    """the tables remove_lines must leave: block `bi` without the rows at the listed positions (None: nothing to do / error)"""
+    base = case["base"]
+    names = _eff_names(base)
+    spec = case["specifier"]
+    if spec is not None and spec not in names:
+        return None, "not-found"
+    bi = 0 if spec is None else names.index(spec)
+    n = len(base["blocks"][bi]["data"][0]) if base["blocks"][bi]["data"] else 0
+    if any(i >= n for i in case["idx"]):
+        return None, "IndexError"
+    blocks = copy.deepcopy(base["blocks"])
+    drop = set(case["idx"])
+    blocks[bi]["data"] = [[v for i, v in enumerate(col) if i not in drop] for col in blocks[bi]["data"]]
+    return blocks, None
+
+
+def _judge_remove(case, obs, resps):
+    if "error" in obs:
+        return _raised(obs, "write-raises")
+    base = case["base"]
+    n = len(_write_requests(base, obs))
+    out = _judge_write(base, obs, resps[:n])
+    rem, mo = obs.get("remove", {}), (resps[n] if len(resps) > n else {"error": "no-answer"})
+    names = _eff_names(base)
+    want, why = _removed(case)
+    if not rem.get("source_after", True):
+        out.append(dict(kind="corr", clause="remove_lines-changed-its-input-file", detail=""))
+    if "error" in rem:
+        if rem.get("foreign"):
+            return out + [dict(kind="corr", clause="harness-or-library-raised", detail=str(rem.get("message")))]
+        if rem["error"] != why or mo.get("error") != rem["error"]:
+            out.append(dict(kind="corr", clause="remove_lines-outcome", detail=f"implementation {rem.get('message', rem['error'])}, expected {why}, model {mo.get('error', 'ok')}"))
+        return out
+    if why == "not-found":
+        if not (rem.get("warned") and rem.get("returned") is None and "text" not in rem and mo.get("error") == "not-found"):
+            out.append(dict(kind="corr", clause="remove_lines-absent-specifier", detail=f"implementation {rem}, model {mo}"))
+        return out
+    if why is not None:
+        return out + [dict(kind="corr", clause="remove_lines-outcome", detail=f"implementation ok, expected {why}, model {mo.get('error', 'ok')}")]
+    if "error" in obs["read"] or any(f["kind"] == "spec" for f in out):
+        return out  # the file remove_lines started from is already wrong (reported above)
+    if case["output"]:
+        if "text" not in rem:
+            return out + [dict(kind="corr", clause="remove_lines-wrote-nothing", detail=str(rem)[:300])]
+        # G6: the file remove_lines wrote is a STAR text like any other -- that it is read into exactly what an independent tokenizer
+        # finds in it is the statement (spec); WHICH rows it holds is the semantics of remove_lines, not a clause of C02 (corr)
+        ind = indep_parse(rem["text"])
+        if isinstance(ind, str):
+            out.append(dict(kind="spec", clause="remove_lines-file-not-a-star-text", detail=f"independent tokenizer: {ind}"))
+        else:
+            out += _cmp_frames_with_tokens(rem["read"], ind, "remove_lines-read", "spec")
+        out += [dict(f, kind="corr", clause="remove_lines-" + f["clause"]) for f in _judge_file_text(rem["text"], want, names) + _judge_frames(rem["read"], want, names)]
+        if "error" in mo:
+            out.append(dict(kind="corr", clause="remove_lines-model-error", detail=str(mo)))
+        else:
+            if mo["text"] != rem["text"]:
+                a, b = mo["text"], rem["text"]
+                i = next((i for i, (x, y) in enumerate(zip(a, b)) if x != y), min(len(a), len(b)))
+                out.append(dict(kind="corr", clause="remove_lines-file-vs-model", detail=f"first difference at offset {i}: file {b[max(0, i - 30):i + 30]!r}, model {a[max(0, i - 30):i + 30]!r}"))
+            out += [dict(f, clause="remove_lines-" + f["clause"]) for f in _judge_model_read(rem["read"], mo["read"])]
+    else:
+        if rem.get("returned") is None:
+            return out + [dict(kind="corr", clause="remove_lines-returned-nothing", detail=str(rem)[:300])]
+        out += [dict(f, kind="corr", clause="remove_lines-returned-" + f["clause"]) for f in _judge_frames(rem["returned"], want, names)]
+        wantc = [[c.strip() for c in (cs or [])] for cs in (base.get("comments") or [None] * len(names))]
+        if rem["returned"]["comments"] != wantc:
+            out.append(dict(kind="corr", clause="remove_lines-returned-comments", detail=f"{rem['returned']['comments']} vs {wantc}"))
     return out
 
 
@@ -1109,7 +1695,7 @@ def _judge_model_read(rd, mr):
     if "error" in mr:
         if "error" not in rd:
             return [dict(kind="corr", clause="model-rejects-impl-accepts", detail=f"model {mr['error']}, implementation read {rd['specifiers']}")]
-        if rd["error"] != mr["error"]:
+        if rd["error"] != mr["error"] and rd["error"] != "other":  # `other`: an IOError whose wording the harness does not know (rewording is harmless)
             return [dict(kind="corr", clause="error-kind", detail=f"model {mr['error']}, implementation {rd['error']}: {rd.get('message')}")]
         return []
     if "error" in rd:
@@ -1123,19 +1709,31 @@ def _judge_model_read(rd, mr):
 def judge(case, obs, resps):
     if case["kind"] == "write":
         return _judge_write(case, obs, resps)
+    if case["kind"] == "rewrite":
+        return _judge_rewrite(case, obs, resps)
+    if case["kind"] == "remove":
+        return _judge_remove(case, obs, resps)
     if "error" in obs:
-        return [dict(kind="spec" if case["kind"] == "read" else "corr", clause="read-crashes", detail=obs["error"] + " @" + obs.get("where", ""))]
+        f = _raised(obs, "read-crashes")
+        return f if case["kind"] == "read" else [dict(x, kind="corr") for x in f]
     rd, mr = obs["read"], resps[0]
     out = []
+    if rd.get("foreign"):
+        return [dict(kind="corr", clause="harness-or-library-raised", detail=str(rd.get("message")))]
+    text = render_read(case)
+    ind = indep_parse(text)
     if case["kind"] == "read":
-        text = render_read(case)
         expect = [b["x"] for b in case["blocks"]]
-        ind = indep_parse(text)
         if ind != expect:
             out.append(dict(kind="corr", clause="oracle-disagrees-with-generator", detail=f"independent tokenizer: {str(ind)[:300]}"))
         out += _cmp_frames_with_tokens(rd, expect, "read", "spec")
-        if "error" in mr or [dict(name=b["name"], cols=b["cols"], rows=b["rows"]) for b in mr["blocks"]] != expect:
+        if ("error" in mr or [dict(name=b["name"], cols=b["cols"], rows=b["rows"]) for b in mr["blocks"]] != expect) and not layout_class(text):
             out.append(dict(kind="corr", clause="model-vs-independent-tokenizer", detail=f"model: {str(mr)[:300]}"))
+    elif not isinstance(ind, str) and ind:
+        # a damaged text the independent tokenizer still finds to be a STAR text of the statement (e.g. the separating blank line
+        # removed, the text cut after a label): judged like any other text. A text it calls malformed is outside the quantifier --
+        # accept/reject and the error kind are then compared with the model only (e.g. a short last row is dropped silently by both)
+        out += _cmp_frames_with_tokens(rd, ind, "read", "spec")
     out += _judge_model_read(rd, mr)
     nsel = ("data_id" in case) + ("specifier" in case)
     out += _judge_sel(case, obs, resps[1:1 + nsel])
@@ -1155,6 +1753,10 @@ def _bucket(n, edges):
 
 def nontrivial(case, obs):
     import numpy as np
+    if case["kind"] == "rewrite":
+        return "error" not in obs and any(st["blocks"] != case["steps"][0]["blocks"] for st in case["steps"][1:]) or case["mode"] == "reuse-list"
+    if case["kind"] == "remove":
+        return "error" not in obs and bool(case["idx"])
     if case["kind"] == "write":
         if "error" in obs:
             return False
@@ -1175,12 +1777,31 @@ def nontrivial(case, obs):
 def stats(case, obs, resps):
     k = case["kind"]
     d = {"stream": k}
+    if k == "rewrite":
+        d["rewrite.mode"] = case["mode"]
+        d["rewrite.rounds"] = len(case["steps"])
+        if "steps" in obs:
+            sizes = [len(o["text"].encode("utf-8")) for o in obs["steps"]]
+            d["rewrite.same-byte-length-different-content"] = any(a == b and x["text"] != y["text"] for a, b, x, y in zip(sizes, sizes[1:], obs["steps"], obs["steps"][1:]))
+            d["rewrite.callers-list-after-write"] = [o.get("args", {}).get("list_entries") for o in obs["steps"]]
+        return d
+    if k == "remove":
+        d["remove.specifier"] = "default(block 0)" if case["specifier"] is None else ("absent" if case["specifier"] not in _eff_names(case["base"]) else "given")
+        d["remove.rows-removed"] = _bucket(len(set(case["idx"])), [0, 1, 3, 10])
+        d["remove.output_file"] = case["output"]
+        d["remove.number_columns"] = case.get("number_columns2", "left out")
+        d["remove.outcome"] = obs.get("remove", {}).get("error", "warned" if obs.get("remove", {}).get("warned") else "ok") if "error" not in obs else "write-raised"
+        d["remove.comments-fed-back"] = "none" if case["base"].get("comments") is None else "some"
+        return d
     if k == "write":
+        d["write.keywords-left-out"] = case.get("omit", []) or ["none"]
         d["write.blocks"] = len(case["blocks"])
         d["write.rows"] = [_bucket(len(b["data"][0]) if b["data"] else 0, [0, 1, 10, 60, 200]) for b in case["blocks"]]
         d["write.cols"] = [_bucket(len(b["cols"]), [1, 4, 10, 30]) for b in case["blocks"]]
         d["write.coltypes"] = [t for b in case["blocks"] for t in b["types"]]
-        d["write.header"] = ["plain(stopgap)" if "stopgap" in b["name"] else ("numbered" if case["number_columns"] else "plain(option)") for b in case["blocks"]]
+        d["write.header"] = ["plain(stopgap)" if "stopgap" in nm else ("numbered" if case["number_columns"] else "plain(option)") for nm in _eff_names(case)]
+        if "error" not in obs and "read" in obs and "frames" in obs["read"]:
+            d["write.dtypes-read-back"] = [f"{t}->{dt}" for b, fr in zip(case["blocks"], obs["read"]["frames"]) if fr["nrows"] for t, dt in zip(b["types"], fr.get("dtypes", []))]
         d["write.readback"] = obs.get("read", {}).get("error", "ok") if "error" not in obs else "write-raised"
         d["write.comments-arg"] = "none" if case.get("comments") is None else [("None" if c is None else f"{len(c)} lines") for c in case["comments"]]
         d["write.float-cell-form"] = [c[0] if c[0] in ("nan", "inf") else ("exponent" if c[2] > 16 or c[2] < -3 else "fixed")
@@ -1191,6 +1812,12 @@ def stats(case, obs, resps):
         d[k + ".outcome(model)"] = resps[0].get("error", "ok") if resps else "?"
         d[k + ".outcome(impl)"] = obs.get("read", {}).get("error", "ok") if "error" not in obs else "crash"
         d[k + ".eol"] = case.get("eol", "lf")
+        d[k + ".layout-class(statement-permits,reader-rejects)"] = sorted(layout_class(text)) or ["-"]
+        d[k + ".non-ascii"] = any(ord(c) > 127 for c in text)
+        if k == "malformed":
+            ind = indep_parse(text)
+            d["malformed.independent-tokenizer"] = "malformed" if isinstance(ind, str) else "still a STAR text of the statement"
+            d["malformed.accepted-by-reader-though-malformed"] = isinstance(ind, str) and "error" not in obs.get("read", {"error": 1})
         if k == "read":
             d["read.blocks"] = len(case["blocks"])
             d["read.final-newline"] = case["final_newline"]
@@ -1208,7 +1835,7 @@ def stats(case, obs, resps):
         n = len(case["blocks"])
         d["sel.data_id"] = ("in-range" if -n <= case["data_id"] < n else "out-of-range") + ("(neg)" if case["data_id"] < 0 else "") + ":" + sel.get("data_id", {}).get("error", "ok")
     if "specifier" in case:
-        names = [b.get("name") or b["x"]["name"] for b in case["blocks"]]
+        names = _eff_names(case) if case["kind"] == "write" else [b["x"]["name"] for b in case["blocks"]]
         d["sel.specifier"] = ("absent" if case["specifier"] not in names else "unique" if names.count(case["specifier"]) == 1 else "duplicated") + ":" + sel.get("specifier", {}).get("error", "ok")
     if isinstance(obs, dict) and "comments" in obs.get("read", {}):
         d["read.comments-per-block"] = [_bucket(len(c), [0, 1, 3, 10]) for c in obs["read"]["comments"]]
@@ -1216,8 +1843,12 @@ def stats(case, obs, resps):
 
 
 def sample_view(case):
+    if case["kind"] == "rewrite":
+        return dict(kind="rewrite", mode=case["mode"], rounds=[sample_view(st) for st in case["steps"]])
+    if case["kind"] == "remove":
+        return dict(kind="remove", idx=case["idx"], specifier=case["specifier"], output=case["output"], number_columns2=case.get("number_columns2", "left out"), base=sample_view(case["base"]))
     if case["kind"] == "write":
-        return dict(kind="write", number_columns=case["number_columns"], comments=case.get("comments"), data_id=case.get("data_id"), specifier=case.get("specifier"),
+        return dict(kind="write", number_columns=case["number_columns"], left_out=case.get("omit", []), comments=case.get("comments"), data_id=case.get("data_id"), specifier=case.get("specifier"),
                     blocks=[dict(name=b["name"], cols=b["cols"][:6], types=b["types"][:6], n_rows=len(b["data"][0]) if b["data"] else 0,
                                  first_row=[(b2f(c[0]) if t == "float" else c[0]) for t, c in list(zip(b["types"], b["data"]))[:6] if c]) for b in case["blocks"]])
     return dict(kind=case["kind"], damage=case.get("damage"), eol=case.get("eol"), data_id=case.get("data_id"), specifier=case.get("specifier"), text=render_read(case)[:600])
@@ -1229,11 +1860,46 @@ def _without(case, *keys):
 
 
 def shrink(case):
+    if case["kind"] == "rewrite":
+        if len(case["steps"]) > 2:
+            yield dict(case, steps=case["steps"][:2])
+            yield dict(case, steps=[case["steps"][0], case["steps"][2]])
+        if case["mode"] == "same-shape":  # keep the shapes equal: drop the same block / rows / column from every round
+            sts = case["steps"]
+            nb = len(sts[0]["blocks"])
+            if nb > 1:
+                for i in range(nb):
+                    yield dict(case, steps=[dict(st, blocks=st["blocks"][:i] + st["blocks"][i + 1:], **({"comments": st["comments"][:i] + st["comments"][i + 1:]} if st.get("comments") else {})) for st in sts])
+            for bi in range(nb):
+                b0 = sts[0]["blocks"][bi]
+                n = len(b0["data"][0]) if b0["data"] else 0
+                cut = lambda f: dict(case, steps=[dict(st, blocks=st["blocks"][:bi] + [f(st["blocks"][bi])] + st["blocks"][bi + 1:]) for st in sts])
+                if n > 1:
+                    yield cut(lambda b: dict(b, data=[c[:n // 2] for c in b["data"]]))
+                    yield cut(lambda b: dict(b, data=[c[n // 2:] for c in b["data"]]))
+                if len(b0["cols"]) > 1:
+                    for j in range(len(b0["cols"])):
+                        yield cut(lambda b, j=j: dict(b, cols=b["cols"][:j] + b["cols"][j + 1:], types=b["types"][:j] + b["types"][j + 1:], data=b["data"][:j] + b["data"][j + 1:]))
+            if any(st.get("comments") for st in sts):
+                yield dict(case, steps=[_without(st, "comments") for st in sts])
+        return
+    if case["kind"] == "remove":
+        for c2 in shrink(case["base"]):
+            if len(c2["blocks"]) == len(case["base"]["blocks"]) and [len(b["data"][0]) if b["data"] else 0 for b in c2["blocks"]] == [len(b["data"][0]) if b["data"] else 0 for b in case["base"]["blocks"]]:
+                yield dict(case, base=c2)
+        if len(case["idx"]) > 1:
+            yield dict(case, idx=case["idx"][:1])
+        if "number_columns2" in case:
+            yield _without(case, "number_columns2")
+        return
     for key in ("data_id", "specifier", "comments"):
         if case.get(key) is not None and key in case:
             yield _without(case, key)
     if case["kind"] == "write":
         bs = case["blocks"]
+        if case.get("omit"):
+            for o in case["omit"]:
+                yield dict(case, omit=[x for x in case["omit"] if x != o])
         if len(bs) > 1:
             for i in range(len(bs)):
                 c2 = dict(case, blocks=bs[:i] + bs[i + 1:])
@@ -1296,7 +1962,21 @@ def shrink(case):
 
 # ------------------------------------------------------------------ open known findings
 def classify(case, obs, finding):
-    if case["kind"] != "write" or finding.get("kind") != "spec":
+    if finding.get("kind") != "spec":
+        return None
+    if case["kind"] in ("read", "malformed"):
+        # C02-K3 / C02-K4: layouts the statement permits and the reader rejects (theorem statement_layout_wider_than_reader)
+        if finding["clause"] != "read-rejects":
+            return None
+        cls = layout_class(render_read(case))
+        err = obs.get("read", {}).get("error")
+        # (`other` = an IOError of the parser whose wording the harness does not know: rewording a message is harmless)
+        if "K3" in cls and err in ("expected:PROPERTY:empty", "other"):
+            return "C02-K3"  # the text ends on the last label line of an empty last block, no final newline: Token.check raises on the exhausted queue
+        if "K4" in cls and err in ("trailing", "expected:LOOP:got", "expected:NEWLINE:got", "other"):
+            return "C02-K4"  # a block directly after the rows of the previous one: its name is consumed as a cell
+        return None
+    if case["kind"] != "write":
         return None
     cells = [(t, v) for b in case["blocks"] for t, col in zip(b["types"], b["data"]) for v in col]
     has_loop = any(t == "text" and v == "loop_" for t, v in cells)
@@ -1336,23 +2016,53 @@ def probes(rng):
         if numeric != is_num(t):
             wrong.append(t)
     out.append(dict(name="pandas.to_numeric accepts exactly the model grammar (decimal literals, [+-]inf/infinity in any case; not nan) on the token pool", ok=not wrong, detail=str(wrong[:5])))
-    ws = [c for c in map(chr, range(0x250)) if c.isspace() and c != "\n"]
-    out.append(dict(name="str.isspace() below U+0250 = model isWs set", ok=sorted(ws) == sorted(" \t\r\x0b\x0c\x1c\x1d\x1e\x1f\x85\xa0"), detail=repr(ws)))
+    # the WHOLE str.isspace set (all 1 114 112 code points, the line feed aside) against the model's isWs, as run by the driver
+    ws = [n for n in range(0x110000) if chr(n).isspace() and n != 10]
+    try:
+        mws = core.run_driver([dict(prop=PROP, op="ws")])[0].get("ws")
+    except Exception as e:
+        mws = f"driver: {e}"
+    out.append(dict(name="str.isspace() over all code points = model isWs (theorem isWs_is_str_isspace)", ok=mws == ws, detail=f"python {[hex(n) for n in ws]} model {mws if isinstance(mws, str) else [hex(n) for n in mws]}"[:600]))
+    out.append(dict(name="str.split() splits exactly at str.isspace characters (independent tokenizer = statement's `whitespace`)",
+                    ok=all(("a" + chr(n) + "b").split() == (["a", "b"] if chr(n).isspace() else ["a" + chr(n) + "b"]) for n in list(range(0x3100)) + [0xfeff, 0x1f600]), detail=""))
+    # G3: integer vs float typing of pandas.to_numeric = the model's isIntTok on number tokens ([+-]?d+ up to 64 bits -> integer dtype)
+    wrong = []
+    for t in [t for t in toks if is_num(t)] + ["-0", "+0", "007", "9223372036854775807", "-9223372036854775808"]:
+        conv = pd.to_numeric(pd.Series([t, t], dtype=object))
+        if pd.api.types.is_integer_dtype(conv.dtype) != (INT_RE.match(t) is not None):
+            wrong.append((t, str(conv.dtype)))
+    out.append(dict(name="pandas.to_numeric gives an integer dtype exactly for columns of [+-]?d+ tokens (model isIntTok)", ok=not wrong, detail=str(wrong[:5])))
+    # remove_lines stream: a written cell that is read and written again prints the same characters
+    tame = [_tame_float(rng) for _ in range(2000)]
+    with np.errstate(all="ignore"):
+        again = [str(float(np.round(np.float64(pd.to_numeric(pd.Series([str(v), "0.5"], dtype=object))[0]), PRECISION))) == str(v) and len(str(v)) <= 10 for v in tame]
+    out.append(dict(name="tame floats: str(round(to_numeric(str(v)), 6)) == str(v), at most 10 characters", ok=all(again), detail=str([v for v, a in zip(tame, again) if not a][:5])))
+    # tolerance of the numeric clause: numpy.round within ULP_ROUND ulp + 0.5e-6 of v, to_numeric within ULP_PARSE ulp of float(token)
+    big = [rng.choice([-1, 1]) * rng.uniform(1, 10) * 10.0 ** rng.randint(-8, 60) for _ in range(4000)] + vals
+    with np.errstate(all="ignore"):
+        rb = [float(np.round(np.float64(v), PRECISION)) for v in big]
+    far = [(v, r_) for v, r_ in zip(big, rb) if math.isfinite(r_) and not _close_after_round(v, r_, 0)]
+    out.append(dict(name="numpy.round(v, 6) within 0.5e-6 + 1.5 ulp of v (8000 values, 1e-8 .. 1e60)", ok=not far, detail=str(far[:3])))
+    conv = pd.to_numeric(pd.Series([repr(x) for x in rb if math.isfinite(x)], dtype=object)).tolist()
+    far = [(x, c) for x, c in zip([x for x in rb if math.isfinite(x)], conv) if abs(c - x) > ULP_PARSE * math.ulp(x)]
+    out.append(dict(name="pandas.to_numeric(repr(x)) within 2 ulp of x (8000 values)", ok=not far, detail=str(far[:3])))
     return out
 
 
 LEVEL_TEXT = ("Lean 4 theorems about an executable model of Token.tokenize / parse_specifier / parse_columns / parse_rows / Starfile.read (incl. comment lists and "
-              "data_id) / get_specifier_id / get_frame_and_comments / Starfile.write (incl. the comments argument, str(int) and the layout of repr(float)) "
-              "over character lists, for texts and tables of any size: tokenizeLine_spec + line_tokens + text_tokens (characters -> tokens of any line/text), "
-              "read_any_layout + read_any_layout_comments (every text of the statement's layout grammar is read into exactly its blocks, labels, row tokens and comments), "
-              "star_roundtrip / typed_roundtrip (readStar (printStar tables) = tables for any number of blocks, both header styles), written_text_is_laid_out, "
+              "data_id) / get_specifier_id / get_frame_and_comments / remove_lines / Starfile.write (incl. the comments argument, the signature defaults, str(int) and the layout of repr(float)) "
+              "over character lists, for texts and tables of any size: tokenizeLine_spec + line_tokens + text_tokens (characters -> tokens of any line/text), isWs_is_str_isspace (white space = the whole str.isspace set), "
+              "read_any_layout + read_any_layout_comments (every text of the layout grammar is read into exactly its blocks, labels, row tokens and comments), statement_layout_wider_than_reader "
+              "(the statement's layout class minus two constraints = what the reader accepts; witnesses of the open findings C02-K3 / C02-K4), "
+              "star_roundtrip / typed_roundtrip / default_specifiers_roundtrip (readStar (printStar tables) = tables for any number of blocks, both header styles), written_text_is_laid_out, "
               "numeric_grammar (the column-typing recogniser = the declarative number grammar), writer_cells_numeric + written_column_typing (a written column comes back "
-              "numeric iff it was written from numbers), crlf_normalisation (CRLF text = LF text for the reader), comments_never_change_tables, "
-              "written_comments_keep_tables, written_comments_read_back, data_id_selects, written_block_by_data_id, specifier_id_first, get_frame_and_comments_spec, the "
-              "witnesses loop_cell_breaks_roundtrip (open finding C02-K1), nan_cell_reads_as_text and empty_block_not_last_breaks; the model is tied to the source by 25 "
-              "regenerated literals/write-order/source-skeleton anchors (tokenizer_literals_documented, writer_literals_documented, comments_and_selection_documented) "
+              "numeric iff it was written from numbers), writer_cells_integer + written_int_column_typing (integer-typed iff written from integers), crlf_normalisation (CRLF text = LF text for the reader), comments_never_change_tables, "
+              "written_comments_keep_tables, written_comments_read_back, data_id_selects, written_block_by_data_id, specifier_id_first, get_frame_and_comments_spec, remove_lines_rows + remove_lines_roundtrip, the "
+              "witnesses loop_cell_breaks_roundtrip (open finding C02-K1), nan_cell_reads_as_text, short_last_row_dropped and empty_block_not_last_breaks; the model is tied to the source by 43 "
+              "regenerated literals/write-order/signature/whole-body anchors insensitive to renamed locals (tokenizer_literals_documented, writer_literals_documented, comments_and_selection_documented, "
+              "signature_defaults_documented, parser_documented, remove_lines_documented) "
               "and by an exact differential run: file text byte for byte vs the Lean writer fed with typed cells (integers, Dragon4 digit strings, texts) and comments, "
-              "Starfile.read on the raw (CRLF) characters vs readStarC vs an independent line tokenizer, comments, data_id / specifier selections, incl. the parser's error "
+              "Starfile.read on the raw (CRLF) characters vs readStarC vs an independent line tokenizer, integer/float/text dtypes, comments, data_id / specifier selections, repeated rounds on one path, remove_lines, incl. the parser's error "
               "kind on damaged texts")
 LEVEL_NOTE = ("trusted: Lean kernel; translator anchors; harness line tokenizer; the digit string of a float (numpy.round + shortest round-trip digits) and the value "
               "pandas.to_numeric assigns to a number token are outside the proofs: the harness evaluates the numeric clause directly and probes the assumptions; "
